@@ -27,8 +27,8 @@ func isString(t types.Type) bool {
 	return ok && b.Info()&types.IsString != 0
 }
 
-// successReturns lists the returns of fn whose error result (last) is the nil constant (or
-// fn has no error result), excluding the recover block.
+// successReturns lists the returns of fn that may report success: the error result (last) is not
+// certainly set (or fn has no error result), excluding the recover block.
 func successReturns(fn *ssa.Function) []*ssa.Return {
 	var out []*ssa.Return
 	eng.EachInstr(fn, func(in ssa.Instruction) {
@@ -39,7 +39,10 @@ func successReturns(fn *ssa.Function) []*ssa.Return {
 		res := eng.ReturnResults(ret)
 		if n := len(res); n > 0 {
 			last := res[n-1]
-			if types.Identical(last.Type(), types.Universe.Lookup("error").Type()) && !eng.IsNilConst(last) && !eng.KnownNil(last, ret.Block()) {
+			// a return whose error is certainly set is a failure; one whose error is not known
+			// (return split(address): whatever the callee said) may be a success
+			if types.Identical(last.Type(), types.Universe.Lookup("error").Type()) && !eng.IsNilConst(last) && !eng.KnownNil(last, ret.Block()) &&
+				(definitelyNonNilErr(last) || eng.KnownNonNil(last, ret.Block())) {
 				return
 			}
 		}
